@@ -93,6 +93,9 @@ class Job:
             self.obligations.append(dict(name=why, verdict="unknown", secs=0.0))
             if fallback is not None:
                 self.candidates.append(dict(oracle=fallback[0], args=enc(fallback[1]), why=why))
+        if not res:
+            self.obligations.append(dict(name="%s: at least one path runs to completion (%d cut, %d infeasible)" % (
+                label or self.name, st.get("truncated", 0), st.get("infeasible", 0)), verdict="unknown", secs=0.0))
         for r in res:
             if r.kind == "unsupported":
                 self.notes.append("unsupported construct on a path of %s: %s" % (label or self.name, r.value))
@@ -225,6 +228,16 @@ def _run_job(spec):
         signal.setitimer(signal.ITIMER_REAL, 0)
     except Exception:
         pass
+    if J.stats.get("vacuous_paths", 0) and not J.stats.get("reachable_paths", 0):
+        # reachability twin: every path the job looked at is contradictory under the full axiom set -- its claims would
+        # all pass vacuously
+        J.obligations.append(dict(name="reachability twin: at least one explored path is satisfiable together with all axioms "
+                                       "(%d checked, all contradictory)" % J.stats["vacuous_paths"], verdict="unknown", secs=0.0))
+    if not J.obligations:
+        # vacuity guard: a job that explored paths but stated nothing about them (every path cut, or no path of the shape
+        # its claims are attached to) must not read as "held"
+        J.obligations.append(dict(name="the job reaches at least one of its assertions (%d paths, %d cut)" % (
+            J.stats.get("paths", 0), J.stats.get("truncated", 0)), verdict="unknown", secs=0.0))
     out = J.result()
     out["wall_s"] = round(time.time() - t0, 2)
     return out
@@ -438,6 +451,7 @@ def main(check_module, argv=None):
             undischarged=[dict(job=o["job"], name=o["name"], verdict=o["verdict"]) for o in failed + undecided][:30],
             paths=int(stats.get("paths", 0)), reachable_paths=int(stats.get("reachable_paths", 0)),
             truncated_paths=int(stats.get("truncated", 0)), infeasible_prefixes=int(stats.get("infeasible", 0)),
+            vacuous_paths=int(stats.get("vacuous_paths", 0)),
             queries=int(stats.get("queries", 0)), solver_s=stats.get("solver_s", 0.0),
             cvc5_crosscheck=dict(rechecked_unsat=int(stats.get("cvc5_rechecked_unsat", 0)), unknown=int(stats.get("cvc5_unknown", 0)),
                                  disagree=int(stats.get("cvc5_disagree", 0)), secs=stats.get("cvc5_s", 0.0)),
